@@ -34,6 +34,24 @@ CLAIMS = {
         "protocol (function bodies not entered; external modules assumed importable). Axioms: none.",
         "6 (C18)",
     ),
+    "C20": (
+        "Coq soundness proof (induction on executions) of an effect-reachability checker over a skeleton language + kernel "
+        "evaluation of the checker on the effect skeleton regenerated from /repo by a translator on every run; validated by "
+        "observing real `python -m cdd exmod` runs (audit hook + file-system snapshots)",
+        "C20_checker_sound is proved once for every program of the skeleton language (effect sites, dry_run guards, calls "
+        "saying how dry_run is passed, loops): if the closure check accepts, every execution produces only harmless events. "
+        "C20_dry_run instantiates it on the skeleton that translate/effects.py regenerates from the whole non-test package on "
+        "every run: no execution of exmod with dry_run=True reaches a file-system write site (mkdir/makedirs/open for "
+        "write/... or an unclassifiable construct). A removed or weakened guard, a callee invoked with dry_run=False, or a new "
+        "write on a dry path breaks the proof; the check then reports the unguarded path and searches generated packages x "
+        "options for a real dry run that changes the file system. The clauses about real runs (everything under the output "
+        "directory, source untouched, generated files valid Python with resolvable __all__, black/whitelist gate) are decided "
+        "by observation only: partial.",
+        "Trusted: Coq kernel incl. vm_compute; translate/effects.py; Model/EffectSem.v as the meaning of the skeleton; calls "
+        "through variables (getattr/import_module dispatch) and third-party internals are outside the skeleton (black's "
+        "grammar cache is redirected to a scratch directory). Axioms: none.",
+        "6 (C20)",
+    ),
 }
 
 NOT_YET = "check not built yet in this development (DESIGN.md section 8 gives the order of work)"
